@@ -158,7 +158,7 @@ def real_queue(stale):
         for fresh in (False, True):
             conn = QueueConnection(name='verif')
             conn.open()
-            client = uc.Client(conn, config={'request_timeout': 0.15, 'p2_timeout': 0.1, 'p2_star_timeout': 0.1})
+            client = uc.Client(conn, config={'request_timeout': 1.5, 'p2_timeout': 1.0, 'p2_star_timeout': 1.0})      # generous: the answering thread may be scheduled late on a busy machine
             for f in stale:
                 conn.fromuserqueue.put(f)
             if fresh:
